@@ -200,7 +200,8 @@ def unsup_stream(rep, rng, N, tier):
     terms, expect, descs = [], [], []
     stats = dict(fits=0, compared=0, skipped_error={}, skipped_nan=0, mat=0, best_k={}, zero_cut_stops=0, distinct_cut_lists=0)
     for idx in range(N):
-        it = gen_kinst(rng, nmin=4, nmax=11 if tier == "quick" else 15, labelled=True)
+        # every third case: a pre-computed matrix reached through index arrays (rows scattered in a larger matrix)
+        it = gen_kinst(rng, nmin=4, nmax=11 if tier == "quick" else 15, labelled=True, **(dict(kinds=("mat",)) if idx % 3 == 1 else {}))
         n = it.n
         min_k = rng.randint(1, 2) if n >= 4 else 1
         max_k = rng.randint(min_k, min(5, n - 1))
